@@ -3,7 +3,7 @@ import Aqv.Base.Keccak
 import Aqv.Model.Trie
 import Aqv.Model.TrieProof
 import Aqv.Model.TrieLoad
-import Std.Data.HashMap
+import Aqv.Model.TrieLoadFast
 import Aqv.Model.TrieGc
 open Aqv Aqv.Proto Aqv.Trie Aqv.Rlp
 
@@ -85,55 +85,8 @@ def unloadD : Nat → Bool → PNode → PNode
     .full fun i => arr.getD i.val .nil
   | _, _, x => x
 
-/-- node database of the replay: a hash map with `db.insert` semantics (first blob stored under a hash is kept); the
-    model functions see it as the function `fun h => map[h]?`. Equivalent to folding `dbInsert` (Model.TrieLoad). -/
-abbrev DbMap := Std.HashMap Bytes Bytes
-
-def dbFun (m : DbMap) : Bytes → Option Bytes := fun h => m[h]?
-
-/-- one bottom-up pass computing what `storeList` lists (each node hashed once): (reference item, entries). -/
-def storePass : PNode → Item × List (Bytes × Bytes)
-  | .nil => (.str [], [])
-  | .value v => (.str v, [])
-  | .hash h => (.str h, [])
-  | .short k c =>
-    let (rc, es) := storePass c
-    let it : Item := .list [.str (hexToCompact k), rc]
-    let e := enc it
-    if 32 ≤ e.length then (.str (H e), (H e, e) :: es) else (it, es)
-  | .full cs =>
-    let parts := (List.finRange 17).map fun i => storePass (cs i)
-    let it : Item := .list (parts.map (·.1))
-    let es := parts.flatMap (·.2)
-    let e := enc it
-    if 32 ≤ e.length then (.str (H e), (H e, e) :: es) else (it, es)
-
-/-- `commitDb` on the hash map: root entry (forced) + every loaded node of ≥ 32 bytes. -/
-def commitMap (m : DbMap) (x : PNode) : DbMap :=
-  match x with
-  | .nil => m
-  | .value _ => m
-  | .hash _ => m
-  | x =>
-    let e := enc (bodyX H x)
-    ((storePass x).2).foldl (fun m kv => m.insertIfNew kv.1 kv.2) (m.insertIfNew (H e) e)
-
-/-- `loadP` with the children of every branch materialised (the model's `loadP` returns lazily evaluated closures). -/
-def loadFast (db : Bytes → Option Bytes) : Nat → PNode → Option Node
-  | 0, _ => none
-  | _ + 1, .nil => some .nil
-  | _ + 1, .value v => some (.value v)
-  | f + 1, .hash h =>
-    match db h with
-    | none => none
-    | some blob =>
-      match decodeNode (blob.length + 1) blob with
-      | .ok pn => loadFast db f pn
-      | .error _ => none
-  | f + 1, .short k c => (loadFast db f c).map (Node.short k)
-  | f + 1, .full cs =>
-    let arr := ((List.finRange 17).map fun i => loadFast db f (cs i)).toArray
-    if arr.all (·.isSome) then some (.full fun i => (arr.getD i.val none).getD .nil) else none
+-- `DbMap`, `dbFun`, `storePass`, `commitMap`, `loadFast`: Model.TrieLoadFast, proved equal to `commitDb` / `storeList` /
+-- `loadP` (Props.C10 `commit_fast_refines`, `load_fast_refines`).
 
 structure St where
   dbm : DbMap := {}
@@ -197,16 +150,14 @@ def stepOp (secure : Bool) (s : St) (op : String) : St :=
     s.emit (hexOfBytes (hashRootX H s.x)) (fun g => g == hexOfBytes (specRoot s.m)) "root-differs-from-mptRoot-of-content"
   | ["c"] =>
     let root := hashRootX H s.x
-    -- cross-check of the driver's one-pass commit against the model's `storeList` (first commit of a history)
-    if s.dbm.isEmpty && (storePass s.x).2 != storeList H s.x then s.fail "commit:storePass-differs-from-storeList" else
-    let s' := { s with dbm := commitMap s.dbm s.x, x := unloadD s.limit true s.x }
+    let s' := { s with dbm := commitMap H s.dbm s.x, x := unloadD s.limit true s.x }
     s'.emit (hexOfBytes root) (fun g => g == hexOfBytes (specRoot s.m)) "root-differs-from-mptRoot-of-content"
   | ["r"] =>
     let root := hashRootX H s.x
     let x' : PNode := match s.x with
       | .nil => .nil
       | _ => .hash root
-    let s' := { s with dbm := commitMap s.dbm s.x, x := x' }
+    let s' := { s with dbm := commitMap H s.dbm s.x, x := x' }
     s'.emit (hexOfBytes root) (fun g => g == hexOfBytes (specRoot s.m)) "root-differs-from-mptRoot-of-content"
   | ["l", n] => { s with limit := n.toNat! }
   | ["i"] =>
